@@ -87,11 +87,22 @@ def build(pa, rng, count, rep):
     ops = ["shift", "false_pos", "false_neg", "cat_shuffle", "split", "cat_shuffle_prevalence", "cat_shuffle_overlap"]
     flag_sets = list(itertools.product([False, True], repeat=5))
     it = 0
+    prev = None
     while len(recs) < count:
-        ref, refname = reference(pa, rng)
-        mag = rng.choice([0.0, 0.0, 0.1, 0.3, 0.5, 0.8, 1.0])
-        extra = rng.choice([None, None, ["extra_cat"]])
-        cst = pa.CorpusShufflingTool(mag, ref, categories=extra)
+        if prev is not None and rng.random() < 0.3:
+            # the SAME tool object used again with its public `magnitude` attribute reassigned (as the repository's own
+            # benchmark does): the new magnitude must take effect
+            ref, refname, extra, cst = prev
+            mag = rng.choice([0.0, 0.0, 0.5, 1.0])
+            cst.magnitude = mag
+            reused = True
+        else:
+            ref, refname = reference(pa, rng)
+            mag = rng.choice([0.0, 0.0, 0.1, 0.3, 0.5, 0.8, 1.0])
+            extra = rng.choice([None, None, ["extra_cat"]])
+            cst = pa.CorpusShufflingTool(mag, ref, categories=extra)
+            reused = False
+        prev = (ref, refname, extra, cst)
         cats = sorted(set(ref.categories) | set(extra or []))
         catrank = {c: i + 1 for i, c in enumerate(cats)}
         refcats = [catrank[c] for c in cats]
@@ -99,7 +110,7 @@ def build(pa, rng, count, rep):
         new_anns = rng.choice([1, 2, 3, ["Martino", "Martingale"], ["b", "a", "c"]])
         np.random.seed(rng.randint(0, 2 ** 31 - 1))
         it += 1
-        meta = {"magnitude": mag, "annotators": new_anns, "extra_categories": extra,
+        meta = {"magnitude": mag, "annotators": new_anns, "extra_categories": extra, "tool_reused_with_new_magnitude": reused,
                 "reference": [[u.segment.start, u.segment.end, u.annotation] for u in ref[refname]]}
         base = {"refcats": refcats, "refunits": refunits, "nsplits": 0, "fallbacks": 0}
         if it % 2 == 0:
